@@ -48,13 +48,13 @@ def layouts(tier, seed, salt):
     max_chunks = 4 if tier == "quick" else 6
     out = []
 
-    def add(dw, aw, align, regs, ovs=OVERLAPS):
+    def add(dw, aw, align, regs, ovs=OVERLAPS, long_ok=False):
         cfg = {"dw": dw, "aw": aw, "align": align, "regs": regs}
         try:
             mm, rr = build_map(cfg)
         except ValueError:
             return False
-        if any(e - s > max_chunks for _, _, (s, e) in mm.resources()):
+        if not long_ok and any(e - s > max_chunks for _, _, (s, e) in mm.resources()):
             return False
         for ov in ovs:
             k = len(out)
@@ -80,6 +80,9 @@ def layouts(tier, seed, salt):
     add(7, 4, 1, [{"w": 20, "acc": "rw"}, {"w": 1, "acc": "w"}, {"w": 15, "acc": "r"}], ovs=[None, 1])
     add(24, 3, 0, [{"w": 49, "acc": "rw", "addr": 1}, {"w": 24, "acc": "rw"}], ovs=[None, 0])
     add(8, 8, 0, [{"w": 24, "acc": "rw", "addr": 201}, {"w": 8, "acc": "rw", "addr": 255}, {"w": 16, "acc": "rw", "addr": 127}], ovs=[None, 0])
+    # registers of 5 and 8 bus words (both tiers; the random part of the quick tier stops at 4 words)
+    add(8, 5, 0, [{"w": 64, "acc": "rw"}, {"w": 8, "acc": "r"}], ovs=[None], long_ok=True)
+    add(8, 5, 0, [{"w": 8, "acc": "rw"}, {"w": 40, "acc": "r", "addr": 8}, {"w": 16, "acc": "rw"}], ovs=[None, 1], long_ok=True)
     # shadows with many chunks (9 and 17 one-word registers without sharing; 1+4+1 words spread by alignment)
     add(8, 5, 0, [{"w": 7, "acc": "r", "ralign": 2}, {"w": 32, "acc": "r", "ralign": 2}, {"w": 1, "acc": "r"}], ovs=[0, None])
     add(8, 5, 0, [{"w": 8, "acc": "rw"} for _ in range(9)], ovs=[0])
